@@ -48,6 +48,14 @@ CHECKS = {
             'pigeonhole. n <= 2^30. Bounded stand-in: every n <= 300 (3000 thorough) x 6 key distributions; partial sort exhaustive '
             'for n <= 7 over 3 keys and all k, on the compiled macro text.',
             'contracts + inductive loop invariants with ghost element labels, z3 LIA/FP + arrays + quantifiers; bounded native stand-in for the composition'),
+    'C49': ('DESIGN.md section 4 / C49',
+            'Exhaustive over a finite domain: every struct field (existence, type, array extent, order), every enum constant and '
+            'every function (return and parameter types) of the introspection metadata becomes one _Static_assert compiled by clang '
+            'against the real public headers; completeness (no header field / enum constant missing) is checked against clang\'s AST; '
+            'parse_type(s).decl() is proved type-compatible with s for every type string of the metadata.',
+            'Trusted: clang\'s type checker and constant evaluator, LP64. Doc strings are not checked; "..." of the three variadic '
+            'functions cannot be represented by the metadata model (listed in evidence).',
+            'compile-time assertions generated from the real metadata, discharged by the C compiler on the real headers'),
 }
 
 NA = {
